@@ -15,13 +15,15 @@ def explore(ck, tier, seed, kinds, judge, n_quick=300, n_thorough=6000, profiles
         edits = E.gen_batch(rng, din, raw, clean, kinds[(k // len(profiles)) % len(kinds)])      # every (profile, kind) combination (k % len(kinds) would alias kinds with profiles)
         if edits: cases.append((d, edits))
     res = E.run_cases(cases)
-    stats = {'inside_model': 0, 'outside_model': 0, 'impl_error': 0, 'broken': 0, 'applied': 0, 'skipped': 0}
+    stats = {'inside_model': 0, 'outside_model': 0, 'impl_error': 0, 'broken': 0, 'applied': 0, 'skipped': 0, 'cross_paragraph_batches': 0, 'nested_insertion_batches': 0}
     feats = {}; distinct = set()
     for c in res:
         ck.count()
         for f in c['d'].get('features', []): feats[f] = feats.get(f, 0) + 1
         st = E.correspondence(ck, c)
         stats[{'inside': 'inside_model', 'outside': 'outside_model'}.get(st, st)] += 1
+        if c.get('xp'): stats['cross_paragraph_batches'] += 1
+        if c.get('nn'): stats['nested_insertion_batches'] += 1
         if not c['r']['err']:
             stats['applied'] += c['r']['ap']; stats['skipped'] += c['r']['sk']
             if c['r']['ap']: distinct.add(json.dumps(E.case_of(c), sort_keys=True)[:3000])
@@ -55,7 +57,7 @@ TRUSTED = [
     'python-docx load/save, lxml serialisation: not modelled (observations go through the reader)',
     'matcher stages after the exact one (smart quotes, Markdown-stripped target, fuzzy regex): answers recorded from the running implementation and fed to the model; their contract (in-range result) is checked on every call',
     'character tables (isspace, \\w) of the inline-Markdown and trimming models: instantiated tables compared with Python on the generator alphabet',
-    'edits inside / overlapping pending insertions, anchors inside marks and cross-paragraph targets are OUTSIDE the engine model: there only the oracles decide (findings D26, D30, D34); block insertions (line breaks / heading lines in the new text) are inside the model']
+    'anchors inside marks and target runs inside another author\'s mark are OUTSIDE the engine model: there only the oracles decide (findings D30, D34); block insertions (line breaks / heading lines in the new text), the nested-insertion shortcut and cross-paragraph deletions / modifications are inside the model (the last two counted; placement oracles excused there: D26, D30)']
 
 def run_property(pid, tier, seed, props_files, kinds, judge, rule, n_quick=300, n_thorough=6000, extra_trusted=(), targeted=None, after=None):
     ck = core.Check(pid, tier, seed)
